@@ -74,6 +74,28 @@ add("C13", "metamorphic relations (orientation, translation, baseline additivity
     "monotonic abscissae of either orientation.",
     "The third-party model 'sneddon_spher' (not in /repo) is excluded; tolerances stated in the evidence.")
 
+add("C01", "ground-truth oracle on Hypothesis-generated synthetic curves (independent reference formulas) fitted from "
+           "inside a stated convergence basin",
+    "All five shipped models, parameters strictly inside bounds with E over 4 decades, 60-1500 points per segment, "
+    "linear/jittered/quadratic sampling, both segments, weighting 0..5e-6, leastsq and nelder, noise 0..3e-2: success "
+    "is reported, contact point / baseline / modulus are recovered to optimizer precision (1e-7 leastsq, 2e-3 nelder, "
+    "of the natural scales) and the fit column coincides with the clean data; with noise the errors stay below "
+    "C sigma / sqrt(n) with calibrated C. 3 200 cases quick, 200 000 thorough.",
+    "Tolerances and the basin are calibrated constants stated in the evidence; one known finding (F20: Nelder-Mead "
+    "initial simplex vs. contact-point scale) is excluded by signature and reported as KNOWN-FINDING.")
+
+add("C18", "single-fault mutants of generated model modules (enumerated + Hypothesis), register/deregister/load "
+           "histories against a dict model with sys.path / dont_write_bytecode snapshots, file-vs-package "
+           "differential, ancillary seeding",
+    "Every single-fault mutant of three base model specs plus generated ones goes through register_model, "
+    "NaniteFitModel and load_model_from_file (register on/off) and must raise a ModelError subclass leaving registry, "
+    "sys.path and sys.dont_write_bytecode as they were; generated histories over 12 file kinds (valid, same stem in "
+    "two directories, stdlib-named, missing, syntax error, ImportError ...) are compared with a dict model after "
+    "every step; a file-loaded model equals the same source imported from a package bit for bit; ancillary values "
+    "seed matching fit parameters unless NaN.",
+    "Model modules are generated from a spec-to-source generator in the check; registry and import state are "
+    "process-global and restored after every case.")
+
 NOT_YET = {}
 
 ALL = [f"C{i:02d}" for i in range(1, 21)]
